@@ -9,8 +9,9 @@
 (*  - password pairs and offered passwords as tokens with their canonical forms (C4 / C6):       *)
 (*    empty, ASCII, non-Latin, > 32 bytes, > 127 bytes, owner = user;                            *)
 (*  - every call sequence up to MaxDepth.                                                        *)
-(* Invariants: the declarative verdict of every call is ok (configuration "repaired": all Dev_*  *)
-(* FALSE) resp. ok or one of the KnownTags (configuration "as the code is").  With Emit = TRUE   *)
+(* Invariants: the declarative verdict of every call is ok (configuration "as the code is": all  *)
+(* Dev_* FALSE since the five C05 fix: commits 44ea712 .. 9164604) resp. ok or one of the         *)
+(* KnownTags (configuration "seeded": the repaired defects switched back on).  With Emit = TRUE   *)
 (* every reached state prints the call sequence that led to it (hist is hidden from the         *)
 (* fingerprint by VIEW, so TLC keeps one shortest sequence per state) for replay into lopdf.     *)
 EXTENDS SecuritySys, TLC, Json
@@ -38,7 +39,10 @@ Len6(t) == CASE t = "E" -> 0 [] t \in {"H1", "H2"} -> 130 [] t = "T127" -> 127 [
              [] t = "S32" -> 32 [] t = "N" -> 12 [] t = "N2" -> 6 [] OTHER -> 4
 Canon(R, t) == IF R <= 4 THEN C4(t) ELSE C6(t)
 Rel1(R, t, ref) == IF t = ref THEN "same" ELSE IF Canon(R, t) = Canon(R, ref) THEN "equiv" ELSE "diff"
-RelOf(t) == [u |-> Rel1(cfg.R, t, cfg.user), o |-> Rel1(cfg.R, t, cfg.owner)]
+\* Revisions 2-4: an owner password whose canonical form is empty means "no owner password"; Algorithm 3 (a) then uses
+\* the user password in its place (ISO 32000-1 7.6.3.4; lopdf since the fix: commit for C06:O.R234.owner-absent)
+OwnerEff(R, u, o) == IF R <= 4 /\ C4(o) = "" THEN u ELSE o
+RelOf(t) == [u |-> Rel1(cfg.R, t, cfg.user), o |-> Rel1(cfg.R, t, OwnerEff(cfg.R, cfg.user, cfg.owner))]
 
 -----------------------------------------------------------------------------
 (* configurations *)
@@ -61,7 +65,7 @@ CfgSet == {c \in CfgV12 \cup CfgV4 \cup CfgV5 : ~Redundant(c)}
 FullCfg(b, u, o, d, n) ==
     [name |-> b.name, V |-> b.V, R |-> b.R, klen |-> b.klen, em |-> b.em, cf |-> b.cf, stmf |-> b.stmf, strf |-> b.strf,
      user |-> u, owner |-> o, dn |-> d, nobj0 |-> n, ulen |-> Len6(u), olen |-> Len6(o),
-     e |-> [u |-> Rel1(b.R, "E", u), o |-> Rel1(b.R, "E", o)]]
+     e |-> [u |-> Rel1(b.R, "E", u), o |-> Rel1(b.R, "E", OwnerEff(b.R, u, o))]]
 
 -----------------------------------------------------------------------------
 (* documents *)
@@ -143,9 +147,9 @@ Spec == Init /\ [][Next]_vars
 Bound == Len(hist) <= MaxDepth
 
 -----------------------------------------------------------------------------
-\* every call is judged ok by the declarative layer (expected for the repaired design)
+\* every call is judged ok by the declarative layer (expected for the design as the code is, all deviations repaired)
 AsSpecified == verdict.ok
-\* ... or fails only in the listed narrow classes (expected for the design as the code is)
+\* ... or fails only in the listed narrow classes (expected with the repaired defects seeded back)
 OnlyKnown == verdict.ok \/ verdict.tags \subseteq KnownTags
 
 \* the judge's idea of the document agrees with the impl-shaped state where both are defined
